@@ -16,13 +16,15 @@ from multidecoder.node import Node
 TEXT = b"abcDEFghiJKL"
 TEXT_WS = b"ab  cD\tEf  gh "
 
-KINDS = ("ctx", "CTX", "dec", "kids", "same", "trim")
+KINDS = ("ctx", "CTX", "dec", "kids", "same", "trim", "L1", "L2", "decsub")
 
 
 def make_hit(text, spec, log):
     a, b, kind, tag = spec
     covered = text[a:b]
     children = None
+    if kind.startswith("L") and kind[1:].isdigit():
+        kind_l = kind
     if kind == "ctx":
         value = covered
     elif kind == "CTX":
@@ -32,6 +34,12 @@ def make_hit(text, spec, log):
     elif kind == "kids":
         value = covered
         children = [Node("kid", value[:2], "", 0, min(2, len(value)))]
+    elif kind.startswith("L") and kind[1:].isdigit():
+        value = b"<" + kind.encode() + b">"  # the head of a chain of values that can always be decoded again (see CHAIN)
+    elif kind == "self":
+        value = text  # restates the node being scanned (same type as the decoded parent, same value, offset 0)
+    elif kind == "decsub":
+        value = text[:3] if text[:3] != covered else text[1:4]  # a decoded value that also occurs verbatim in the context
     elif kind == "trim":
         value = covered.strip()  # differs from the covered text only by surrounding whitespace: still a DECODED value
     elif kind == "same":
@@ -294,11 +302,16 @@ def _eval_case(case, clauses=("C03", "C04", "C05", "C06", "C07", "C08")):
     for s in specs:
         if s[2] == "dec":
             v = b"<" + s[3].encode() + b">"
-            table.setdefault(v, [(0, len(v), "dec", s[3] + "'"), (1, 2, "ctx", s[3] + '"')])
+            table.setdefault(v, [(0, len(v), "dec", s[3] + "'"), (1, 2, "ctx", s[3] + '"'), (0, len(v), "self", s[3])])
+        if s[2] == "decsub":
+            for v in (text[:3], text[1:4]):
+                table.setdefault(v, [(0, 2, "ctx", s[3] + "s"), (1, len(v), "dec", s[3] + "t")])
         if s[2] == "kids":
             kv = text[s[0] : s[1]][:2]
             if kv:
                 table.setdefault(kv, [(0, len(kv), "dec", s[3] + "k")])  # the supplied child is itself searchable
+    for lvl in range(1, 9):  # <L1> decodes to <L2> decodes to <L3> ... : every decoded value can be decoded again
+        table.setdefault(b"<L%d>" % lvl, [(0, 4, "L%d" % (lvl + 1), "c")])
     groups = case.get("groups")
     errs = []
     trees = {}
